@@ -29,7 +29,7 @@ def step (st : St) (line : String) : St × String :=
       | some w =>
         match (match w with | none => none | some w => w.complete) with
         | none => (st, "err")
-        | some e => (st, fmtResult (executeFast ix ⟨e, []⟩))
+        | some e => (st, fmtResult (executeFast xxhash64 ix ⟨e, []⟩))
   | "fs" :: cmd :: args => (st, stepFs cmd args)
   | "lru" :: args => (st, stepLru args)
   | "qp" :: cmd :: args => (st, stepParse cmd args)
